@@ -197,7 +197,7 @@ func summarize(vs []*Verdict) []*NameSummary {
 	}
 	// canaries and covers are existential over paths: one refutable instance suffices
 	for _, ns := range m {
-		if (ns.Kind == "canary" || ns.Kind == "cover") && ns.Discharged > 0 {
+		if (ns.Kind == "canary" || ns.Kind == "cover" || ns.Kind == "reach") && ns.Discharged > 0 {
 			ns.Failed = nil
 		}
 	}
